@@ -39,8 +39,12 @@ func (c *Check) RunSeq(spec SeqSpec) SeqStats {
 	var interrupted atomic.Bool
 
 	var explore func(path []int)
+	quiet := false // level-1 nodes are visited by every shard but counted by shard 0 only
 	visit := func(path []int) (expand bool) {
 		key, stop := spec.Run(path)
+		if quiet {
+			return !stop && spec.Depth-len(path) > 0
+		}
 		atomic.AddInt64(&st.Sequences, 1)
 		rem := spec.Depth - len(path)
 		mu.Lock()
@@ -83,6 +87,8 @@ func (c *Check) RunSeq(spec SeqSpec) SeqStats {
 	}
 	// level 1 sequentially (cheap), level 2 subtrees in parallel
 	var roots [][]int
+	quiet = c.child && c.shardI != 0
+	defer func() { quiet = false }()
 	for op := 0; op < spec.NOps; op++ {
 		p := []int{op}
 		if visit(p) {
@@ -97,6 +103,7 @@ func (c *Check) RunSeq(spec SeqSpec) SeqStats {
 			}
 		}
 	}
+	quiet = false
 	c.ParallelFor(len(subs), func(i int) {
 		if interrupted.Load() || c.Expired() {
 			interrupted.Store(true)
